@@ -15,6 +15,7 @@ def run(chk, replay=None):
         cfg = G["cfg"]
         for vn, r in G["runs"].items():
             key = (repr(cfg), vn)
+            if "error" in r and al.unsupported_hang(chk, cfg, r): continue
             if "error" in r:
                 chk.case(key, ["impl-error"], None)
                 chk.violation(f"async-run-fails:{r['error'].split(':')[0]}", f"threaded run failed ({vn}): {r['error'][:300]}", dict(cfg=cfg, variant=vn))
